@@ -1,4 +1,4 @@
-(** C15 (thorough tier only) -- stm density, IFC-67 against IAPWS-97 on tiles, by interval arithmetic. *)
+(** C15 (thorough tier only) -- steam density, IFC-67 against IAPWS-97 on tiles, by interval arithmetic. *)
 Set Warnings "-ambiguous-paths,-notation-overridden".
 From Coq Require Import ZArith QArith Qreals Reals List Bool Lra.
 From Interval Require Import Tactic.
@@ -8,9 +8,21 @@ Import ListNotations.
 Close Scope Q_scope.
 Open Scope R_scope.
 
-Lemma S3 t p : 650 <= t <= 700 -> 10000000 <= p <= 20000000 -> rel_stm t p <= 1 / 100.
+Lemma S12 t p : 200 <= t <= 250 -> 1000000 <= p <= 1550000 -> rel_stm t p <= 1 / 100.
+Proof. intros Ht Hp. unfold rel_stm. expose_stm. interval with (i_taylor t, i_bisect p, i_depth 14, i_degree 5). Qed.
+
+Lemma S42 t p : 500 <= t <= 550 -> 1000000 <= p <= 10000000 -> rel_stm t p <= 1 / 100.
+Proof. intros Ht Hp. unfold rel_stm. expose_stm. interval with (i_taylor t, i_bisect p, i_depth 14, i_degree 5). Qed.
+
+Lemma S1 t p : 100 <= t <= 150 -> 25000 <= p <= 50000 -> rel_stm t p <= 1 / 100.
 Proof. intros Ht Hp. unfold rel_stm. expose_stm. interval with (i_bisect t, i_bisect p, i_depth 14). Qed.
 
-Lemma S7 t p : 750 <= t <= 800 -> 10000000 <= p <= 20000000 -> rel_stm t p <= 1 / 100.
+Lemma S19 t p : 300 <= t <= 350 -> 25000 <= p <= 50000 -> rel_stm t p <= 1 / 100.
+Proof. intros Ht Hp. unfold rel_stm. expose_stm. interval with (i_bisect t, i_bisect p, i_depth 14). Qed.
+
+Lemma S39 t p : 500 <= t <= 550 -> 25000 <= p <= 50000 -> rel_stm t p <= 1 / 100.
+Proof. intros Ht Hp. unfold rel_stm. expose_stm. interval with (i_bisect t, i_bisect p, i_depth 14). Qed.
+
+Lemma S59 t p : 700 <= t <= 750 -> 12500 <= p <= 25000 -> rel_stm t p <= 1 / 100.
 Proof. intros Ht Hp. unfold rel_stm. expose_stm. interval with (i_bisect t, i_bisect p, i_depth 14). Qed.
 
